@@ -605,7 +605,6 @@ func c07R9(c *Ctx, rule string) {
 	}
 }
 
-
 // c07R11: the public membership API builds the request the caller asked for:
 // each wrapper sets its own command constant, the caller's server ID (and
 // address) and the caller's prevIndex, and hands the request to
